@@ -157,8 +157,14 @@ def shard(ctx):
             rep.count("custom_types")
         text = fmt(ev)
         text_perm = fmt(permuted(rng, ev))
+        spellings = [(text, "plain"), (text_perm, "permuted")]
+        try:
+            # same value, other JSON spelling: escapes (\\uXXXX, \\/), whitespace, key order
+            spellings.append((g.render(ev, rng), "respelled"))
+        except TypeError:
+            pass
         for en in ENUMS_FOR[(kind, fmtk)]:
-            for t, tag in ((text, "plain"), (text_perm, "permuted")):
+            for t, tag in spellings:
                 de_cmds.append({"op": "event_de", "enum": en, "text": t})
                 de_meta.append((ev, kind, fmtk, etype, custom, redacted, en, tag, nontrivial or len(content) > 1))
         # content round trip (original content only)
@@ -171,6 +177,11 @@ def shard(ctx):
             rt_meta.append((c2, "plain"))
             rt_cmds.append({"op": "content_roundtrip", "kind": k, "ev_type": etype, "content": fmt(permuted(rng, c2))})
             rt_meta.append((c2, "permuted"))
+            try:
+                rt_cmds.append({"op": "content_roundtrip", "kind": k, "ev_type": etype, "content": g.render(c2, rng)})
+                rt_meta.append((c2, "respelled"))
+            except TypeError:
+                pass
     # other kinds
     other = []
     for _ in range(n // 3):
@@ -198,6 +209,11 @@ def shard(ctx):
         for en in enums:
             de_cmds.append({"op": "event_de", "enum": en, "text": fmt(ev)})
             de_meta.append((ev, kindname, f, etype, False, False, en, "plain", len(content) > 0))
+            try:
+                de_cmds.append({"op": "event_de", "enum": en, "text": g.render(ev, rng)})
+                de_meta.append((ev, kindname, f, etype, False, False, en, "respelled", len(content) > 0))
+            except TypeError:
+                pass
         rt_cmds.append({"op": "content_roundtrip", "kind": kindname, "ev_type": etype, "content": fmt(c2)})
         rt_meta.append((c2, "plain"))
 
@@ -251,7 +267,7 @@ def shard(ctx):
             if bk in by_event:
                 rep.judged()
                 if by_event[bk] != d:
-                    rep.violation("result_depends_on_key_order", key,
+                    rep.violation("result_depends_on_key_order_or_spelling", key,
                                   {"enum": en, "a": by_event[bk], "b": d, "event": cmd["text"][:2000]}, cmd)
             else:
                 by_event[bk] = d
@@ -289,7 +305,7 @@ def shard(ctx):
             if ck in first:
                 rep.judged()
                 if first[ck] != res["s1"]:
-                    rep.violation("content_depends_on_key_order", key,
+                    rep.violation("content_depends_on_key_order_or_spelling", key,
                                   {"a": first[ck][:1500], "b": res["s1"][:1500]}, cmd)
             else:
                 first[ck] = res["s1"]
